@@ -47,13 +47,6 @@ impl<N, E> MG<N, E> {
     pub open spec fn set_node_weight(self, a: int, w: N) -> Self {
         MG { nodes: self.nodes.update(a, w), edges: self.edges, out: self.out, inn: self.inn }
     }
-    /// first edge in out[a] whose target is b (directed lookup)
-    pub open spec fn first_out_to(self, a: int, b: int) -> Option<int> {
-        first_with(self.out[a], |e: int| self.edges[e].1 == b)
-    }
-    pub open spec fn first_in_from(self, a: int, b: int) -> Option<int> {
-        first_with(self.inn[a], |e: int| self.edges[e].0 == b)
-    }
 }
 
 /// predicate "edge e's k-endpoint is node b" on the concrete edge array
@@ -89,6 +82,23 @@ pub proof fn lemma_first_with_some(s: Seq<int>, p: spec_fn(int) -> bool, i: int)
         assert forall|j: int| 0 <= j < i - 1 implies !p(t[j]) by { assert(t[j] == s[j + 1]); }
         assert(t[i - 1] == s[i]);
         lemma_first_with_some(t, p, i - 1);
+    }
+}
+pub proof fn lemma_first_with_member(s: Seq<int>, p: spec_fn(int) -> bool)
+    ensures first_with(s, p) is Some ==> s.contains(first_with(s, p).unwrap()) && p(first_with(s, p).unwrap())
+    decreases s.len()
+{
+    if s.len() > 0 {
+        if p(s[0]) { assert(s[0] == s[0]); }
+        else {
+            let t = s.drop_first();
+            lemma_first_with_member(t, p);
+            if first_with(t, p) is Some {
+                let x = first_with(t, p).unwrap();
+                let i = choose|i: int| 0 <= i < t.len() && t[i] == x;
+                assert(s[i + 1] == x);
+            }
+        }
     }
 }
 pub proof fn lemma_first_with_none(s: Seq<int>, p: spec_fn(int) -> bool)
